@@ -61,6 +61,7 @@ def forms(t):
 
 
 def cases(rng, tier):
+	yield ('now',)
 	seen = set()
 	def emit(t):
 		if 0 <= t <= MAXT and t not in seen:
@@ -124,6 +125,8 @@ def text_variants(imf, r850, asc):
 
 
 def requests(case):
+	if case[0] == 'now':
+		return ['now']
 	if case[0] == 't':
 		imf, r850, asc, year = forms(case[1])
 		return ['c %d' % case[1], 'p %s' % imf.hex(), 'p %s' % r850.hex(), 'p %s' % asc.hex(), 'h %s' % imf.hex(), 'h %s' % r850.hex(), 'h %s' % asc.hex(), 'a %d' % case[1], 'pc ' + ' '.join(x.hex() for x in text_variants(imf, r850, asc))]
@@ -234,6 +237,10 @@ def oracle(case):
 	for cfg, r in per.items():
 		if r != base:
 			return {'what': 'result depends on the process time zone / locale', 'config': list(cfg), 'got': r, 'utc': base, 'case': list(case), 'finding': None}
+	if case[0] == 'now':
+		if base != ['ok']:
+			return {'what': 'Date() without argument / the Date field of a prepared response is not this moment (minutes off: %s)' % base, 'case': list(case), 'finding': None}
+		return None
 	if case[0] == 't':
 		t = case[1]
 		imf, r850, asc, year = forms(t)
